@@ -15,6 +15,8 @@ e (round 3)  the crossing search and the operators' STM run in the configured ti
 e (round 4)  options chain: create_problem + to_backend_inputs interpreted with symbolic options (tolerance, limits, direction, order, steps, indices, event reach the operators / the request);
    e-crossing: C11.e's wrapper rules re-filed (the end of the search window is never a hit)
 d-members (round 5)  C13.f re-filed: members of a continuation carry the period (and, known finding, the correction scheme) of their own correction
+d cache hit (round 5)  `_OrbitCorrectionService.correct` interpreted twice on one service with a remembering `get_or_create`: the result is applied to the
+   orbit on both calls, with period = the scheme's factor * the returned half-period (the old code applied it inside the memoised factory only; fix 31621db)
 """
 from __future__ import annotations
 
@@ -700,6 +702,25 @@ def _d_period(chk):
     ok = isinstance(out, tuple) and out[0] == sp.Symbol("XC") and sp.simplify(S(out[1]) - 2 * hp) == 0 and len(applied) == 1 and applied[0].attrs.get("half_period") == hp
     chk.check(ok, "C05.d", f"{OS}::_OrbitCorrectionService.correct", f"correct() returns period {out[1] if isinstance(out, tuple) else out}, expected 2*half_period of its own result",
               sample="(x_corrected, 2*half_period, result); apply_correction(payload of the same result)")
+    # ... on a cache hit too: a second correct() with the same options (after the caller has overridden the period, say) must put the corrected state and
+    # period back - a result that is only applied inside the memoised factory leaves the orbit with the caller's period and reports success
+    applied.clear()
+    store = {}
+
+    def goc(k, f):
+        if k not in store:
+            store[k] = f()
+        return store[k]
+
+    svc3 = SymObj(ClassRef(omod, ocls), {"domain_obj": dom, "corrector": SymObj(None, {"correct": lambda d, options=None: res}, "corr"),
+                                         "make_key": lambda *a: "KEY", "get_or_create": goc, "apply_correction": lambda p: applied.append(p),
+                                         "correction_options": SymObj(None, {"to_dict": lambda: {}}, "opts")}, "svc")
+    o1 = ipx.apply(ipx.getattr(svc3, "correct"), [], {"options": SymObj(None, {"to_dict": lambda: {}}, "opts")})
+    o2 = ipx.apply(ipx.getattr(svc3, "correct"), [], {"options": SymObj(None, {"to_dict": lambda: {}}, "opts")})
+    ok = len(applied) == 2 and all(p.attrs.get("half_period") == hp for p in applied) and isinstance(o2, tuple) and sp.simplify(S(o2[1]) - 2 * hp) == 0
+    chk.check(ok, "C05.d", f"{OS}::_OrbitCorrectionService.correct[cache hit]",
+              f"two correct() calls with equal options apply the result {len(applied)} time(s): on the cache hit the orbit keeps whatever state / period it had while success is reported",
+              sample="correct() twice: apply_correction(payload of the cached result) both times")
     chk.count("functions partially evaluated", 2)
     # half period comes from the same event function as the residual
     imod, icls = ri.find_def(IFC, "_OrbitCorrectionInterfaceBase")
